@@ -241,6 +241,25 @@ def run(chk):
     else:
         chk.violation("C05.cap", pz, "_pause/_resume_msg_queue_reading", "flag + transport pairing", "queue pause/resume is not paired with the transport")
 
+    # staying paused needs a reason that a later event clears: queued messages (taken by start(), which calls this function again) or a
+    # buffered tail that the message queue drains; anything else (e.g. `the parser holds an incomplete head`) can only be cleared by reading
+    clr = [s_ for s_, _b in K.stmts(rz2, "self._msg_queue_paused = False")]
+    stays = [r for r in ast.walk(rz2.node) if isinstance(r, ast.Return) and clr and r.lineno < clr[0].lineno]
+    for r in stays:
+        cl = PC.pc(r, raw=True)
+        def nonempty(l):
+            if "self._messages" not in l.text and "self._message_tail" not in l.text:
+                return False
+            less = " < " in l.text or " <= " in l.text
+            return (not l.pos) if less else l.pos
+        drained = [l for c in cl if len(c) == 1 for l in c if nonempty(l)]
+        if drained:
+            chk.ok("C05.cap", r, f"the transport stays paused only while `{drained[0]}`: handling the queued requests re-evaluates the resume")
+        else:
+            chk.violation("C05.cap", r, "return", "len(self._messages) >= self._max_msg_queue_size",
+                          "the transport stays paused under a condition that does not involve the message queue: nothing a handler does re-evaluates it, and input that only the socket can complete (an incomplete request head) is never read - the connection hangs",
+                          path_condition=norm.fmt_cnf(cl))
+    chk.expect_count("C05.cap.stays", len(stays), 2, "stay-paused exits of _resume_msg_queue_reading()")
     # ---- C05.wake ---------------------------------------------------------------------------------------------------
     sr = K.exprs(dr, "$W.set_result(None)")
     if not sr:
